@@ -13,6 +13,7 @@ tie   : correspondence, three streams of harness/c20.cpp against drv_c20
                      implementation's own oracle (idempotent? all variants equal? equalsExact / equalsIdentical?)
         construct  : GEOS outputs of hull / envelope / centroid / pointOnSurface / minimumBoundingCircle /
                      minimumRotatedRectangle / minimumWidth are checked by the exact checkers in the driver
+        compare    : signs of a.compareTo(b), b.compareTo(a), a.compareTo(a) == the modelled compareTo
         invariants : clone / reverse / normalize: dumps vs the model, reverse∘reverse, area / length vs exact values,
                      counts, dimension, equalsExact / equalsIdentical vs the model
 A failing oracle flag or a "violated:<condition>" answer is a concrete input on which the property itself fails for
@@ -111,8 +112,8 @@ def replay_case(exe, stream, case):
     rc, out = verif.sh([exe, "replay", stream, p], timeout=120)
     os.remove(p)
     line = out.strip().split("\n")[-1] if out.strip() else ""
-    if stream == "normalize":
-        rc2, got = verif.run_driver_lines("normalize", [case], driver_exe=DRV)
+    if stream in ("normalize", "compare"):
+        rc2, got = verif.run_driver_lines(stream, [case], driver_exe=DRV)
         return case, line, (got[0] if got else "")
     rc2, got = verif.run_driver_lines(stream, [line], driver_exe=DRV)
     return line, "ok", (got[0] if got else "")
@@ -139,7 +140,7 @@ def run(ctx):
     quick = ctx.tier == "quick"
     shards = min(verif.NPROC, 8)
     plan = (("normalize", 6000 if quick else 120000), ("construct", 8000 if quick else 200000),
-            ("invariants", 6000 if quick else 120000))
+            ("invariants", 6000 if quick else 120000), ("compare", 8000 if quick else 150000))
     corr = {}
     found_input = False
     for stream, n in plan:
@@ -154,6 +155,8 @@ def run(ctx):
         pairs = read_pairs(ctx.work, stream, shards)
         if stream == "normalize":
             found_input |= judge_normalize(ctx, exe, r, pairs, corr[stream])
+        elif stream == "compare":
+            found_input |= judge_compare(ctx, exe, r, pairs, corr[stream])
         else:
             found_input |= judge_checked(ctx, exe, stream, read_triples(ctx.work, stream, shards), corr[stream])
     ctx.cov["support_correspondence"] = corr
@@ -213,6 +216,25 @@ def judge_normalize(ctx, exe, r, pairs, cov):
     return found
 
 
+def judge_compare(ctx, exe, r, pairs, cov):
+    """Geometry::compareTo: the implementation's own answers must be antisymmetric and reflexive (what makes the sort
+    canonical); a difference from the model is a broken tie"""
+    found = False
+    bad = [(c, e) for c, e in pairs if e.split() and (len(e.split()) != 3 or int(e.split()[0]) != -int(e.split()[1]) or e.split()[2] != "0")]
+    cov["impl_not_antisymmetric"] = len(bad)
+    if bad:
+        c, e = min(bad, key=lambda ce: len(ce[0]))
+        sig = {"op": "compareTo", "class": "not-antisymmetric-or-reflexive"}
+        found = True
+        ctx.violation("compareTo is not antisymmetric / reflexive on a generated pair (%d cases)" % len(bad),
+                      {"kind": "failing-input", "stream": "compare", "case": c, "impl": e, "signature": sig}, signature=sig)
+    if r["disagreements"]:
+        idx, case, exp, got = min(r["disagreements"], key=lambda d: len(d[1]))
+        ctx.violation("compare: a.compareTo(b) differs from the modelled compareTo (%d cases)" % (len(r["disagreements"]) + r.get("more_disagreements", 0)),
+                      {"kind": "tie-broken", "correspondence": "compare", "stream": "compare", "case": case, "impl": exp, "model": got}, nofail=True)
+    return found
+
+
 def judge_checked(ctx, exe, stream, triples, cov):
     found = False
     groups = collections.defaultdict(list)
@@ -257,6 +279,9 @@ def replay(ctx, path):
     if stream == "normalize":
         fl = flags_of(impl)
         bad = fl is None or fl != (1, 1, 1, 1) or impl != drv
+    elif stream == "compare":
+        t = impl.split()
+        bad = impl != drv or len(t) != 3 or int(t[0]) != -int(t[1]) or t[2] != "0"
     else:
         bad = drv != "ok"
     if bad:
